@@ -63,7 +63,7 @@ func VerifC13AuthorizeFaults() {
 	inner, f, snap := vfFaultEnv(ctx, t0, maxOps)
 	req := vfSignedRequest(t0, 2, []byte("a-node-led-registration-nonce-32"), vf.X25519Pub(1), nil)
 	rec, err := AuthorizeNode(ctx, f, req)
-	vf.Assert("op-count-within-bound", f.N <= maxOps)
+	vf.Bound("op-count-within-bound", f.N <= maxOps)
 	if f.Hit {
 		vf.Reach("fault-hit")
 	}
@@ -94,7 +94,7 @@ func VerifC13NodeLedFetchFaults() {
 	vfRecord(ctx, inner, 2, nonce, vf.X25519Pub(1), 9)
 	snap := inner.Snapshot()
 	resp, err := FetchNodeCredentials(ctx, f, vfSignedRequest(t0, 2, nonce, vf.X25519Pub(1), nil))
-	vf.Assert("op-count-within-bound", f.N <= maxOps)
+	vf.Bound("op-count-within-bound", f.N <= maxOps)
 	if f.Hit {
 		vf.Reach("fault-hit")
 	}
@@ -125,7 +125,7 @@ func VerifC13WrappedFetchFaults() {
 		panic(err)
 	}
 	resp, err := FetchNodeCredentials(ctx, f, req, nodeenrollment.WithRegistrationWrapper(w))
-	vf.Assert("op-count-within-bound", f.N <= maxOps)
+	vf.Bound("op-count-within-bound", f.N <= maxOps)
 	if f.Hit {
 		vf.Reach("fault-hit")
 	}
@@ -149,7 +149,7 @@ func VerifC13TokenCreateFaults() {
 	const maxOps = 3
 	inner, f, snap := vfFaultEnv(ctx, t0, maxOps)
 	id, token, err := CreateServerLedActivationToken(ctx, f, &types.ServerLedRegistrationRequest{})
-	vf.Assert("op-count-within-bound", f.N <= maxOps)
+	vf.Bound("op-count-within-bound", f.N <= maxOps)
 	if f.Hit {
 		vf.Reach("fault-hit")
 	}
@@ -198,7 +198,7 @@ func VerifC13NodeSideFaults() {
 	}
 	before := nodeInner.Get(vfs.KindCreds, string(nodeenrollment.CurrentId))
 	out, err := creds.HandleFetchNodeCredentialsResponse(ctx, f, resp)
-	vf.Assert("op-count-within-bound", f.N <= maxOps)
+	vf.Bound("op-count-within-bound", f.N <= maxOps)
 	if f.Hit {
 		vf.Reach("fault-hit")
 	}
@@ -243,7 +243,7 @@ func VerifC13DuplicateRecordFaults() {
 	const maxOps = 7
 	f := &vfs.Faulty{Inner: inner, FailAt: vf.Int("fail-at", -1, maxOps), ErrKind: vf.Int("error-kind", 0, 2)}
 	resp, err := FetchNodeCredentials(ctx, f, req, nodeenrollment.WithRegistrationWrapper(w))
-	vf.Assert("op-count-within-bound", f.N <= maxOps)
+	vf.Bound("op-count-within-bound", f.N <= maxOps)
 	if f.Hit {
 		vf.Reach("fault-hit")
 	}
